@@ -54,7 +54,9 @@ Proc(i) == F[i].act = 0                        \* written by a processor (or the
 \* q is the quiescent event
 MaxInc(q) == Len(q.restarts)
 \* incarnation j ended at a point where nothing was owed (the last one always: the runner waited)
-Settled(q, j) == IF j >= MaxInc(q) THEN TRUE ELSE q.restarts[j + 1].quiet
+\* A stream that outgrew the scenario's bound (a processor feeding itself) is cut by the runner: the
+\* prefix is judged, nothing absent is demanded.
+Settled(q, j) == IF q.overflow THEN FALSE ELSE IF j >= MaxInc(q) THEN TRUE ELSE q.restarts[j + 1].quiet
 
 Reacts(k, i) == k.react = "all" \/ F[i].name = "t"
 Fails(k, i) == k.fail_on # "" /\ F[i].topic = k.fail_on
@@ -167,7 +169,10 @@ HInst(q, r, j) ==
         \cup (IF Cardinality({x \in SynthFrames : F[x].c.t = "xs.threshold"}) > (IF tail THEN 0 ELSE 1)
               THEN {V({"C14"}, "threshold-invocations", Max(SynthFrames))} ELSE {})
         \cup (IF k.pulse = 0 /\ \E x \in SynthFrames : F[x].c.t = "xs.pulse" THEN {V({"C14"}, "pulse-not-asked", Max(SynthFrames))} ELSE {})
-        \cup (IF k.react # "all" /\ SynthFrames # {} THEN {V({"C14", "C15"}, "unknown-trigger", Min(SynthFrames))} ELSE {})
+        \cup (IF k.react # "all" /\ \E x \in SynthFrames : ~(k.pulse > 0 /\ F[x].c.t = "xs.pulse")
+              THEN {V({"C14", "C15"}, "unknown-trigger", Min(SynthFrames))} ELSE {})
+        \cup (IF k.pulse > 0 /\ Cardinality({x \in SynthFrames : F[x].c.t = "xs.pulse"}) > k.maxpulse
+              THEN {V({"C14"}, "pulse-invocations", Max(SynthFrames))} ELSE {})
         \* ---- completeness: every reacting frame it was shown (Seen) or must be shown (Must)
         \cup (IF k.group > 0 /\ Ann # {} THEN
                 LET Need == {i \in Seen \cup Must : Reacts(k, i) /\ i \notin StopC /\ i < End /\ Grp(i) = {}}
@@ -216,7 +221,16 @@ HReg(q, r) ==
       Shadowed(j) == \E i \in Idx : i > r /\ F[i].suf = "register" /\ F[i].name = n /\ F[i].ctx # c /\ F[i].inc < j
       \* a later .register of the same (context, name) replaced it, whatever became of that one
       Replaced(j) == \E i \in Idx : i > r /\ F[i].suf = "register" /\ F[i].name = n /\ F[i].ctx = c /\ F[i].inc < j
-      Owes(j) == j > j0 /\ AnnouncedBefore(j) /\ ~StoppedBefore(j) /\ ~Replaced(j) /\ Settled(q, j) /\ I(j).ann = {}
+      \* a client .unregister of the (context, name) from an earlier incarnation that nobody answered
+      PendingUnreg(j) == \E i \in Idx : i > r /\ F[i].suf = "unregister" /\ F[i].name = n /\ F[i].ctx = c /\ F[i].inc < j
+      Owes(j) == j > j0 /\ AnnouncedBefore(j) /\ ~StoppedBefore(j) /\ ~Replaced(j) /\ ~PendingUnreg(j) /\ Settled(q, j) /\ I(j).ann = {}
+      \* found by TLC on XsHandlers (CompactClientUnreg): the server died between a client's .unregister
+      \* and the instance's .unregistered; the start-up compaction ignores client .unregister frames
+      \* (they carry no handler id), so the unregistered handler is started again
+      LostAtCrash(j) == /\ j > j0 /\ ~StoppedBefore(j) /\ ~Replaced(j) /\ I(j).act
+                        /\ \E i \in Idx : /\ i > r /\ F[i].suf = "unregister" /\ F[i].name = n /\ F[i].ctx = c /\ F[i].inc < j
+                                           /\ ~Settled(q, F[i].inc)
+                                           /\ \E x \in Idx : x < i /\ F[x].hid = r /\ F[x].suf = "registered" /\ F[x].inc = F[i].inc
       invalid ==
         (IF All \ AllUnr # {} THEN {V({"C16"}, "invalid-script-active", Min(All \ AllUnr))} ELSE {})
         \cup (IF Cardinality(AllUnr) > 1 THEN {V({"C16", "C17"}, "unregistered-twice", Max(AllUnr))} ELSE {})
@@ -230,6 +244,7 @@ HReg(q, r) ==
         \cup {V({"C17"}, "missing-restored-handler", r) : j \in {j \in Incs : Owes(j) /\ ~Shadowed(j)}}
       kn == UNION {I(j).k : j \in Incs}
             \cup (IF \E j \in Incs : Owes(j) /\ Shadowed(j) THEN {"C17-name-keyed-compaction"} ELSE {})
+            \cup (IF \E j \in Incs : LostAtCrash(j) THEN {"C17-unregister-lost-at-crash"} ELSE {})
   IN IF k.valid THEN [v |-> valid, k |-> kn] ELSE [v |-> invalid, k |-> {}]
 
 \* frames stamped with a handler id that is no registration, announcements without stamp
@@ -351,19 +366,35 @@ GSpawn(qe, g) ==
             \cup {V({"C18", "C10"}, "generator-recv-content-missing", sq[x]) : x \in {x \in 1..Len(sq) : F[sq[x]].suf = "recv" /\ (~F[sq[x]].hash \/ ~F[sq[x]].cas)}}
       Stops(j) == {i \in Life(j) : F[i].suf = "stop"}
       StartsOf(j) == {i \in Life(j) : F[i].suf = "start"}
-      \* duplex: what was echoed must be the sends appended after .start, once, in order
+      \* duplex: what was echoed must be the sends appended after .start, once, in order.  As the
+      \* property reads (C06) only sends of the generator's own context feed it; as coded the reader
+      \* follows all contexts and filters by topic only - both are recognised, nothing else
+      SendsAfter(j, own) == IF StartsOf(j) = {} THEN <<>> ELSE
+        Sorted({i \in Idx : F[i].name = n /\ F[i].suf = "send" /\ i > Min(StartsOf(j)) /\ F[i].inc = j /\ (own => F[i].ctx = c)})
+      RecvsOf(j) == Sorted({i \in Life(j) : F[i].suf = "recv"})
+      Echoes(recvs, sends) == \A x \in 1..Len(recvs) : x <= Len(sends) /\ F[recvs[x]].c.k = "e:" \o F[sends[x]].c.k
+      DupAsProperty(j) == Echoes(RecvsOf(j), SendsAfter(j, TRUE))
+      DupAsCoded(j) == Echoes(RecvsOf(j), SendsAfter(j, FALSE))
+      DupKnown(j) == k.duplex /\ StartsOf(j) # {} /\ ~DupAsProperty(j) /\ DupAsCoded(j)
       Dup(j) ==
         IF ~k.duplex \/ StartsOf(j) = {} THEN {} ELSE
-        LET st == Min(StartsOf(j))
-            sends == Sorted({i \in Idx : F[i].name = n /\ F[i].suf = "send" /\ i > st /\ F[i].inc = j})
-            recvs == Sorted({i \in Life(j) : F[i].suf = "recv"})
-        IN  (IF Len(recvs) > Len(sends) THEN {V({"C18"}, "duplex-extra-recv", recvs[Len(sends) + 1])} ELSE {})
-            \cup {V({"C18"}, "duplex-order", recvs[x]) :
-                    x \in {x \in 1..(IF Len(recvs) < Len(sends) THEN Len(recvs) ELSE Len(sends)) : F[recvs[x]].c.k # "e:" \o F[sends[x]].c.k}}
-            \cup (IF Len(recvs) < Len(sends) /\ Settled(qe, j) THEN {V({"C18"}, "missing-duplex-recv", sends[Len(recvs) + 1])} ELSE {})
+        LET own == DupAsProperty(j)
+            sends == SendsAfter(j, own)
+            recvs == RecvsOf(j)
+        IN  (IF ~DupAsProperty(j) /\ ~DupAsCoded(j) THEN {V({"C18"}, "duplex-echo-mismatch", recvs[Len(recvs)])} ELSE {})
+            \cup (IF Len(recvs) < Len(sends) /\ Settled(qe, j) /\ (DupAsProperty(j) \/ DupAsCoded(j))
+                  THEN {V({"C18"}, "missing-duplex-recv", sends[Len(recvs) + 1])} ELSE {})
+      \* C17.  As the property reads: the latest spawn of the (context, name), if it was accepted, runs
+      \* again.  As coded: the last .spawn / .spawn.error frame of the NAME decides.
+      SpawnTraffic(j) == {i \in Idx : F[i].name = n /\ GenFrame(i) /\ F[i].inc < j}
+      LatestOfKey(j) == g = MaxOr({h \in Spawns : F[h].name = n /\ F[h].ctx = c /\ F[h].inc < j}, 0)
+      AcceptedBefore(j) == \E i \in St : F[i].suf = "start" /\ F[i].inc < j
+      CodeRestores(j) == g = MaxOr(SpawnTraffic(j), 0)
+      OwesG(j) == j > j0 /\ LatestOfKey(j) /\ AcceptedBefore(j) /\ Settled(qe, j) /\ StartsOf(j) = {}
+      restore == {V({"C17"}, "missing-restored-generator", g) : j \in {j \in j0..MaxInc(qe) : OwesG(j) /\ CodeRestores(j)}}
       accepted ==
         {V({"C18", "C06"}, "generator-context", i) : i \in {i \in St : F[i].ctx # c}}
-        \cup UNION {Cyc(j) \cup Dup(j) : j \in j0..MaxInc(qe)}
+        \cup UNION {Cyc(j) \cup Dup(j) : j \in j0..MaxInc(qe)} \cup restore
         \cup {V({"C18"}, "spawn-error-for-accepted-spawn", i) : i \in Refusals}
         \cup (IF Life(j0) = {} /\ Settled(qe, j0) THEN {V({"C18"}, "missing-start", g)} ELSE {})
         \cup (IF ~k.panics /\ ~k.duplex /\ StartsOf(j0) # {} /\ Settled(qe, j0) /\ Cardinality(Stops(j0)) < qe.cycles
@@ -374,8 +405,16 @@ GSpawn(qe, g) ==
         \cup (IF Refusals = {} /\ Settled(qe, j0) THEN {V({"C18"}, "missing-spawn-error", g)} ELSE {})
         \cup {V({"C18"}, "spawn-error-shape", i) : i \in {i \in Refusals : F[i].name # n \/ F[i].ctx # c \/ ~F[i].reason}}
       \* DESIGN 6 #12: the worker thread panics after .start - no recv, no stop, no spawn.error
-      kn == IF ~refusedAsCoded /\ k.panics /\ \E j \in j0..MaxInc(qe) : StartsOf(j) # {} /\ Stops(j) = {} /\ Settled(qe, j)
-            THEN {"C18-generator-worker-panic"} ELSE {}
+      kn == (IF ~refusedAsCoded /\ k.panics /\ \E j \in j0..MaxInc(qe) : StartsOf(j) # {} /\ Stops(j) = {} /\ Settled(qe, j)
+             THEN {"C18-generator-worker-panic"} ELSE {})
+            \cup (IF \E j \in j0..MaxInc(qe) : OwesG(j) /\ ~CodeRestores(j) /\ F[Max(SpawnTraffic(j))].ctx # c
+                  THEN {"C17-generator-name-keyed"} ELSE {})
+            \* found by TLC on XsGenerators (CompactByRef): a .spawn.error that refuses an OLDER spawn of the
+            \* name but was appended after the accepted one hides the accepted one at the next start
+            \cup (IF \E j \in j0..MaxInc(qe) : OwesG(j) /\ ~CodeRestores(j) /\ F[Max(SpawnTraffic(j))].ctx = c
+                        /\ F[Max(SpawnTraffic(j))].suf = "spawn.error" /\ F[Max(SpawnTraffic(j))].sid < g
+                  THEN {"C17-generator-spawn-error-shadows"} ELSE {})
+            \cup (IF \E j \in j0..MaxInc(qe) : DupKnown(j) THEN {"C06-generator-duplex-cross-context-send"} ELSE {})
   IN [v |-> IF refusedAsCoded THEN refused ELSE accepted, k |-> kn]
 
 GStray ==
